@@ -874,8 +874,45 @@ func main() {
 		}
 	}
 	totalSched, totalConf, totalSync := 0, 0, 0
-	for _, sc := range scen {
-		o, sigs := runScenario(sc, bs, maxBound, deadline)
+	// Iterated context bounding across scenarios: first every scenario with at most one preemption (a body next to a
+	// copy of itself first: state that independent calls share without wanting to shows there), then the full bound
+	// for the scenarios in which something is shared (a written object of the pre-existing region, a synchronisation
+	// operation) and nothing was found yet. One scenario with thousands of scheduling points cannot starve the rest.
+	type scenRes struct {
+		o    *outcome
+		sigs map[string]string
+	}
+	results := make([]scenRes, len(scen))
+	var order []int
+	for i, sc := range scen {
+		if len(sc.bodies) == 2 && sc.bodies[0] == sc.bodies[1] {
+			order = append(order, i)
+		}
+	}
+	for i, sc := range scen {
+		if !(len(sc.bodies) == 2 && sc.bodies[0] == sc.bodies[1]) {
+			order = append(order, i)
+		}
+	}
+	b1 := maxBound
+	if b1 > 1 {
+		b1 = 1
+	}
+	for _, i := range order {
+		o, sigs := runScenario(scen[i], bs, b1, deadline)
+		results[i] = scenRes{o, sigs}
+	}
+	if maxBound > b1 {
+		for _, i := range order {
+			if o := results[i].o; (o.conflicting > 0 || o.syncOps > 0) && len(results[i].sigs) == 0 && !time.Now().After(deadline) {
+				o2, sigs2 := runScenario(scen[i], bs, maxBound, deadline)
+				o2.schedules += o.schedules
+				results[i] = scenRes{o2, sigs2}
+			}
+		}
+	}
+	for i, sc := range scen {
+		o, sigs := results[i].o, results[i].sigs
 		n := r.Eval()
 		r.Trans(int64(o.points + o.schedules))
 		r.State(astx.HashString(sc.name(bs)), true)
